@@ -81,7 +81,7 @@ def check_ps(ctx, case):
         mu, V, info = sfrun.moments_of(res.state, be, hbar)
         got[be] = (mu, V)
         labels.append("backend:" + be)
-        if be == "bosonic" and abs(info["wsum"] - 1) > 1e-9:
+        if be == "bosonic" and sfrun.weights_bad(info):
             return ctx.fail("bosonic.weights", "weights sum to %r" % (info["wsum"],))
     ctx.note(case, nontrivial=len(got) >= 1 and _nontrivial(case), labels=labels)
     tol = 1e-8 * _scale(ref.V)
@@ -348,7 +348,7 @@ def check_bf(ctx, case):
     mu_b, V_b, info = sfrun.moments_of(rb.state, "bosonic", 2.0)
     nongauss = any(s[0] in ("Fock", "Catstate") and not (s[0] == "Fock" and s[1][0] == 0) for s in ops_)
     ctx.note(case, nontrivial=nongauss, labels=labels + ["backend:bosonic", "backend:fock", "nongaussian_prep" if nongauss else "gaussian_only"])
-    if abs(info["wsum"] - 1) > 1e-6:
+    if sfrun.weights_bad(info):
         return ctx.fail("bosonic.weights", "weights sum to %r" % (info["wsum"],))
     tol = 2e-2 if nongauss else 2e-3
     dm = float(np.max(np.abs(mu_f - mu_b)))
